@@ -32,6 +32,7 @@ type tEnv struct {
 	Async bool   `json:"async"`
 	Id    string `json:"id"`
 	Gap   int64  `json:"gap"` // AsyncCancel: hold the canceller between the two halves of Cancel for this long (hook)
+	Dl    *int64 `json:"dl"`  // Start: the caller's context has a deadline at this instant (absent or -1: none)
 }
 
 // gates for the "asyncCancel.mid" hook: ExecutionResult -> how long to hold the canceller
@@ -203,13 +204,21 @@ func runTScenario(t *testing.T, raw []byte) (lines []M, problem string) {
 				switch e.What {
 				case "Start":
 					ctx, cancel := context.WithCancel(context.WithValue(context.Background(), xKey, e.X))
+					if e.Dl != nil && *e.Dl >= 0 {
+						// the caller's context carries a deadline (a timer of the runtime fires it)
+						ctx, cancel = context.WithDeadline(ctx, rec.t0.Add(time.Duration(*e.Dl)*unit))
+					}
 					cancels[e.X] = cancel
 					if e.Id == "precanceled" {
 						cancel() // the caller's context is already done when the execution starts
 					}
 					ex := failsafe.NewExecutor[string](bs.policies...).WithContext(ctx).
-						OnSuccess(func(ev failsafe.ExecutionDoneEvent[string]) { rec.info("ExecOnSuccess", 0, ev, ev.Result, ev.Error, nil) }).
-						OnFailure(func(ev failsafe.ExecutionDoneEvent[string]) { rec.info("ExecOnFailure", 0, ev, ev.Result, ev.Error, nil) }).
+						OnSuccess(func(ev failsafe.ExecutionDoneEvent[string]) {
+							rec.info("ExecOnSuccess", 0, ev, ev.Result, ev.Error, nil)
+						}).
+						OnFailure(func(ev failsafe.ExecutionDoneEvent[string]) {
+							rec.info("ExecOnFailure", 0, ev, ev.Result, ev.Error, nil)
+						}).
 						OnDone(func(ev failsafe.ExecutionDoneEvent[string]) { rec.info("ExecOnDone", 0, ev, ev.Result, ev.Error, nil) })
 					x := e.X
 					rec.tline(M{"ev": "Start", "x": x}, nil)
@@ -297,6 +306,17 @@ func runTScenario(t *testing.T, raw []byte) (lines []M, problem string) {
 				case "BhRelease":
 					rec.tline(M{"ev": "BhReleaseCall", "id": e.Id}, nil)
 					bs.bulks[e.Id].ReleasePermit()
+				case "CbOpen", "CbHalfOpen", "CbClose":
+					rec.tline(M{"ev": e.What + "Call", "id": e.Id}, nil)
+					switch e.What {
+					case "CbOpen":
+						bs.breakers[e.Id].Open()
+					case "CbHalfOpen":
+						bs.breakers[e.Id].HalfOpen()
+					case "CbClose":
+						bs.breakers[e.Id].Close()
+					}
+					rec.tline(M{"ev": "CbRet", "id": e.Id}, nil)
 				}
 			}
 			wg.Wait()
